@@ -14,6 +14,25 @@
 #ifndef LOADDUMP
 #define LOADDUMP 0
 #endif
+#ifndef LD_ALPHA
+#define LD_ALPHA 0
+#endif
+#ifndef LD_ENC
+#define LD_ENC 0
+#endif
+#ifndef LD_AGAIN
+#define LD_AGAIN (LD_ENC == 1)
+#endif
+#if LD_ENC == 1
+#include <vata/explicit_finite_aut.hh>
+#define LD_AUT VATA::ExplicitFiniteAut
+#elif LD_ENC == 2
+#include <vata/bdd_bu_tree_aut.hh>
+#define LD_AUT VATA::BDDBottomUpTreeAut
+#elif LD_ENC == 3
+#include <vata/bdd_td_tree_aut.hh>
+#define LD_AUT VATA::BDDTopDownTreeAut
+#endif
 using VATA::Util::AutDescription;
 static const char* const STN[3] = {"q", "p1", "r"};
 // symbol pool: name, rank
@@ -24,8 +43,13 @@ static const char* const SYN[3] = {"a", "f", "g2"}; static const int SYR[3] = {0
 extern "C" void harness(void)
 {
   bool symDecl[NSY], stDecl[NST], fin[NST];
+#ifdef DECL_FIXED      // every symbol and state is declared (the declaration lists are not part of the property; saves NSY + NST free bits)
+  for (int i = 0; i < NSY; ++i) symDecl[i] = true;
+  for (int i = 0; i < NST; ++i) stDecl[i] = true;
+#else
   for (int i = 0; i < NSY; ++i) symDecl[i] = vs_bit();
   for (int i = 0; i < NST; ++i) stDecl[i] = vs_bit();
+#endif
   for (int i = 0; i < NST; ++i) fin[i] = vs_bit();
   // transitions: leaf a->s (with or without parentheses is a parser matter, the serializer writes none), f(s)->t, g2(s,t)->u restricted
   bool tl[NST]; for (int s = 0; s < NST; ++s) tl[s] = vs_bit();
@@ -57,10 +81,39 @@ extern "C" void harness(void)
   CHECK(e.states == d.states, 3);
   CHECK(e.name == d.name, 4);
 #endif
-#if LOADDUMP
+#if LOADDUMP && LD_ENC != 0
+  { // load + dump through one of the other encodings (1 finite automaton: leaf rules are start rules; 2 / 3 BDD bottom-up /
+    // top-down, explicit symbol mode): text out, text in, same rules and final states under the same state names
+    LD_AUT aut; VATA::AutBase::StateDict stateDict;
+#if LD_ENC == 3        // (the top-down encoding declares LoadFromAutDesc but defines only LoadFromString)
+    aut.LoadFromString(parser, text, stateDict);
+#else
+    aut.LoadFromAutDesc(e, stateDict);
+#endif
+    std::string dumped = aut.DumpToString(ser, stateDict);
+    AutDescription f = parser.ParseString(dumped);
+    CHECK(f.transitions == d.transitions, 10);
+    CHECK(f.finalStates == d.finalStates, 11);
+#if LD_AGAIN
+    LD_AUT again; VATA::AutBase::StateDict dict2;        // and once more from the dumped text through LoadFromString
+    again.LoadFromString(parser, dumped, dict2);
+    AutDescription g = parser.ParseString(again.DumpToString(ser, dict2));
+    CHECK(g.transitions == d.transitions, 12);
+    CHECK(g.finalStates == d.finalStates, 13);
+#endif
+  }
+#elif LOADDUMP
   { // load + dump through the explicit encoding: same rules and final states under the same state names
     VATA::ExplicitTreeAut aut;
     VATA::ExplicitTreeAut::StateDict stateDict;
+#if LD_ALPHA   // the automaton gets a COPY of an alphabet that already knows one symbol (and has handed out one number)
+    VATA::ExplicitTreeAut first; VATA::ExplicitTreeAut::StateDict firstDict;
+    { AutDescription one; one.name = "B"; one.symbols.insert(AutDescription::Symbol(SYN[0], SYR[0])); one.states.insert(STN[0]);
+      one.transitions.insert(AutDescription::Transition(AutDescription::StateTuple(), SYN[0], STN[0])); first.LoadFromAutDesc(one, firstDict); }
+    typedef VATA::ExplicitTreeAut::OnTheFlyAlphabet OTF;
+    VATA::ExplicitTreeAut::AlphabetType copy(new OTF(static_cast<const OTF&>(*first.GetAlphabet())));
+    aut.SetAlphabet(copy);
+#endif
     aut.LoadFromAutDesc(e, stateDict);
     AutDescription f = aut.DumpToAutDesc(stateDict);
     // rules are kept exactly; final states exactly (states that occur nowhere are not part of an automaton)
